@@ -18,7 +18,7 @@ LEVEL_TEXT = (
     'DenseNatMap::rewrite re-keys through the (K, V) FromIterator impl. Verdict preservation for '
     'symmetric models is not decided.')
 
-FLOORS = {'C10-R1': 8, 'C10-R2': 2, 'C10-R3': 5, 'C10-R4': 8, 'C10-R5': 2}
+FLOORS = {'C10-R1': 8, 'C10-R2': 2, 'C10-R3': 5, 'C10-R4': 8, 'C10-R5': 6}
 
 REPR = '<actor::model_state::ActorModelState<A, H> as checker::representative::Representative>::representative'
 STATE = 'actor::model_state::ActorModelState'
@@ -379,8 +379,20 @@ def r4_rewrite_impls(ctx, F):
 
 
 def r5_densenatmap(ctx, F):
+    r5_keyed_map(ctx, F, r'^<util::densenatmap::DenseNatMap<K, V> as checker::rewrite::Rewrite<\w+>>::rewrite$',
+                 'DenseNatMap')
+
+
+def r5_other_maps(ctx, F):
+    """the std / util maps keyed by rewritable values: an entry's value stays with its (rewritten) key"""
+    r5_keyed_map(ctx, F, r'^<std::collections::BTreeMap<K, V> as checker::rewrite::Rewrite<\w+>>::rewrite$', 'BTreeMap')
+    r5_keyed_map(ctx, F, r'^<util::HashableHashMap<K, V> as checker::rewrite::Rewrite<\w+>>::rewrite$',
+                 'HashableHashMap')
+
+
+def r5_keyed_map(ctx, F, pattern, short):
     rule = 'C10-R5'
-    b = F.one_body(r'^<util::densenatmap::DenseNatMap<K, V> as checker::rewrite::Rewrite<\w+>>::rewrite$', 'DenseNatMap::rewrite')
+    b = F.one_body(pattern, '%s::rewrite' % short)
     ctx.touched(b)
     # normal form (A12): a `map(|(k, v)| (k.rewrite(plan), v.rewrite(plan))).collect()` chain, a `for` loop that
     # pushes the pairs and collects them afterwards, or a local closure are read alike
@@ -421,15 +433,14 @@ def r5_densenatmap(ctx, F):
             else:
                 oc.add('other')
         only = len(oc) == 1 and all(o != 'other' and o.is_('Iterator::collect', 'FromIterator::from_iter') for o in oc)
-    ctx.check(only, rule, 'rekeyed-collect-is-the-only-result', b,
-              good='every result of DenseNatMap::rewrite comes out of the pair collector',
-              bad='DenseNatMap::rewrite has a path that builds its result without collecting (rewritten key, rewritten '
-                  'value) pairs: on that path values keep their old positions although the plan may move their keys')
-    ctx.check(ok, rule, 'rekeyed-collect', b,
-              good='DenseNatMap::rewrite maps each (k, v) to (rewritten k, rewritten v) and collects pairs '
-                   '(the pair FromIterator re-sorts by key)',
-              bad='DenseNatMap::rewrite does not collect (rewritten key, rewritten value) pairs: values stay at '
-                  'their old positions')
+    ctx.check(only, rule, 'rekeyed-collect-is-the-only-result@%s' % short, b,
+              good='every result of %s::rewrite comes out of the pair collector' % short,
+              bad='%s::rewrite has a path that builds its result without collecting (rewritten key, rewritten '
+                  'value) pairs: on that path values keep their old positions although the plan may move their keys' % short)
+    ctx.check(ok, rule, 'rekeyed-collect@%s' % short, b,
+              good='%s::rewrite maps each (k, v) of one entry to (rewritten k, rewritten v) and collects the pairs' % short,
+              bad='%s::rewrite does not collect (rewritten key, rewritten value) pairs built from one and the same '
+                  'entry: values end up under other keys than their own' % short)
 
 
 def run(ctx):
@@ -451,3 +462,4 @@ def run(ctx):
         r4_rewrite_impls(ctx, F)
     with ctx.rule('C10-R5', 'densenatmap'):
         r5_densenatmap(ctx, F)
+        r5_other_maps(ctx, F)
